@@ -213,6 +213,32 @@ class _CanonIfAssign(ast.NodeTransformer):
         return node
 
 
+class _CanonEnumerate(ast.NodeTransformer):
+    """`for i in range(len(seq)): x = seq[i]; ...` is analysed as `for i, x in enumerate(seq): ...`
+    (position / element pairing is recognised in one spelling only)"""
+
+    def visit_For(self, node):
+        self.generic_visit(node)
+        it = node.iter
+        if isinstance(node.target, ast.Name) and isinstance(it, ast.Call) and isinstance(it.func, ast.Name) \
+                and it.func.id == "range" and len(it.args) == 1 and isinstance(it.args[0], ast.Call) \
+                and isinstance(it.args[0].func, ast.Name) and it.args[0].func.id == "len" \
+                and len(it.args[0].args) == 1 and isinstance(it.args[0].args[0], ast.Name) and node.body:
+            seq, i = it.args[0].args[0].id, node.target.id
+            st = node.body[0]
+            if isinstance(st, ast.Assign) and len(st.targets) == 1 and isinstance(st.targets[0], ast.Name) \
+                    and isinstance(st.value, ast.Subscript) and isinstance(st.value.value, ast.Name) \
+                    and st.value.value.id == seq and isinstance(st.value.slice, ast.Name) \
+                    and st.value.slice.id == i and len(node.body) > 1:
+                new = ast.For(ast.Tuple([ast.Name(i, ast.Store()), ast.Name(st.targets[0].id, ast.Store())], ast.Store()),
+                              ast.Call(ast.Name("enumerate", ast.Load()), [ast.Name(seq, ast.Load())], []),
+                              node.body[1:], node.orelse)
+                ast.copy_location(new, node)
+                ast.fix_missing_locations(new)
+                return new
+        return node
+
+
 class Module:
     def __init__(self, name, path, relpath):
         self.name = name
@@ -229,6 +255,7 @@ class Module:
         _CanonCompare().visit(self.tree)
         _CanonAdd().visit(self.tree)
         _CanonIfAssign().visit(self.tree)
+        _CanonEnumerate().visit(self.tree)
         self.imports = {}     # local name -> (module name, attr or None)
         self.functions = {}
         self.classes = {}
